@@ -424,6 +424,7 @@ scanfrom(const char *name, FILE *file)
 	s->buf.len = 0;
 	s->buf.cap = 0;
 	s->usebuf = false;
+	s->sawspace = false;
 	s->chr = 0;
 	s->loc.file = name;
 	s->loc.line = 1;
